@@ -716,7 +716,63 @@ def run_bounded(wire, chunks, case, stats):
             pass                # rejecting a frame outside the grammar is an allowed outcome
 
 
-CLAUSES = {'roundtrip': pred_roundtrip, 'stream': pred_stream, 'raw': pred_raw}
+# ------------------------------------------------------------------------------------------------
+# clause: sessions -- consecutive tnet_from() sessions in one process, each with the receive buffer tnet_from makes for itself
+
+
+def pred_sessions(case, stats):
+    """case = {'sessions': [{'msgs': [...], 'tail': hex, 'take': k, 'mode', 'cuts'}, ...]}: every session delivers its own
+    messages from the first byte of its own stream, whatever an earlier session left unread (its consumer took only `take`
+    messages of a stream that held more, all received in the same chunk)."""
+    cpppo, tnet, tnetstrings = _impl()
+    residue = False
+    classes = ['ss:sessions:%d' % len(case['sessions'])]
+    failures = []
+    for si, sess in enumerate(case['sessions']):
+        values = [dec(n) for n in sess['msgs']]
+        if not all(machine_supports(v) for v in values):
+            raise common.HarnessError('sessions clause generates supported message types only')
+        frames = [tnetstrings.dump(v) for v in values]
+        wire = b''.join(frames) + unhx(sess.get('tail', ''))
+        chunks, _ = make_chunks(wire, sess['mode'], sess.get('cuts', []))
+        conn = FakeConn(chunks)
+        gen = tnet.tnet_from(conn, ('c20s', si))
+        take = min(sess['take'], len(values))
+        try:
+            for k in range(take):
+                try:
+                    got = next(gen)
+                except StopIteration:
+                    failures.append(('sessions:message-not-delivered', {'session': si, 'message': k, 'after-a-session-with-unread-data': residue}, show(values[k])))
+                    break
+                except Exception as e:
+                    failures.append(('sessions:' + exc_sig(e), {'session': si, 'message': k, 'exc': show(e), 'after-a-session-with-unread-data': residue}, show(values[k])))
+                    break
+                d = same(values[k], got)
+                if d:
+                    failures.append(('sessions:' + d, {'session': si, 'message': k, 'got': show(got), 'after-a-session-with-unread-data': residue}, show(values[k])))
+                    break
+        finally:
+            gen.close()
+        if failures:
+            break
+        if conn.delivered > sum(len(f) for f in frames[:take]):
+            residue = True          # bytes beyond the consumed messages had been received when the consumer stopped
+    if residue:
+        classes.append('ss:a-later-session-follows-one-with-unread-received-data')
+    stats.case(case, nontrivial=residue and len(case['sessions']) >= 2, classes=classes)
+    for sig, obs, exp in failures[:1]:
+        stats.fail('sessions', sig, case, observed=obs, expected={'value': exp})
+
+
+def sessions_cases():
+    supported = st.one_of(st_scalar_nodes(True), st_scalar_nodes(True), st_value_nodes(6).map(lambda n: {'yd': n}))
+    one = st.builds(lambda m, t, k, c: {'msgs': m, 'tail': t, 'take': k, 'mode': c[0], 'cuts': c[1]},
+                    st.lists(supported, min_size=1, max_size=4), st_tail(), st.integers(1, 4), st_chunking())
+    return st.builds(lambda l: {'sessions': l}, st.lists(one, min_size=2, max_size=4))
+
+
+CLAUSES = {'roundtrip': pred_roundtrip, 'stream': pred_stream, 'raw': pred_raw, 'sessions': pred_sessions}
 
 # ------------------------------------------------------------------------------------------------
 # generators
@@ -973,6 +1029,7 @@ def shard_random(job):
     common.hyp_run(s, roundtrip_cases(max_bytes, max_items), pred_roundtrip, n_rt, sd, 'roundtrip', PID)
     common.hyp_run(s, stream_cases(stream_bytes), pred_stream, n_st, sd + 1, 'stream', PID)
     common.hyp_run(s, raw_cases(), pred_raw, n_raw, sd + 2, 'raw', PID)
+    common.hyp_run(s, sessions_cases(), pred_sessions, max(10, n_st // 4), sd + 3, 'sessions', PID)
     return s
 
 
